@@ -303,11 +303,20 @@ static int print_f(void (*printchar_handler)(void *d, int c),
     if (with_exp || is_shortened)
     {
         ep = 0.0L;
+        /* scale by base^16 (exactly representable) while possible: every
+         * scaling step rounds, so few large steps keep the digits accurate
+         * for very large and very small values */
+        while (ip >= POW(base, 16))
+            fp = MODF((ip + fp) / POW(base, 16), &ip), ep += 16.0L;
         while (ip >= base)
             fp = MODF((ip + fp) / base, &ip), ep += 1.0L;
         if (fp != 0.0L)
+        {
+            while ((ip == 0.0L) && (fp * POW(base, 16) < 1.0L))
+                fp *= POW(base, 16), ep -= 16.0L;
             while (ip == 0.0L)
                 fp = MODF((ip + fp) * base, &ip), ep -= 1.0L;
+        }
         if (is_shortened)
         {
             /* %g: precision is the number of significant digits P. With X the
